@@ -28,76 +28,99 @@ def fn_text(name_rx):
     return m.group(0) if m else None
 
 
-def all_fn_names(prefix):
+def cli_functions():
+    """{name: blocks} of every function of the cli crate (from the current MIR dump), plus closure span -> function name"""
     from vlib.mirsym import dump
     text, _ = dump.mir_text("cli")
-    return re.findall(r"^fn (%s[^(]*)\(" % re.escape(prefix), text, re.M)
+    names = re.findall(r"^fn ([^\s(][^(]*)\(", text, re.M)
+    funcs, span_of = {}, {}
+    for nm in names:
+        try:
+            funcs[nm] = cfg_of(nm)
+        except Inconclusive:
+            continue
+    for m in re.finditer(r"^fn ([^\s(][^(]*)\(_1: (?:&mut |&)?\{closure@([^}]*)\}", text, re.M):
+        span_of[m.group(2)] = m.group(1)
+    return funcs, span_of
 
 
 RECV = r"Receiver<.*> as std::iter::IntoIterator>::into_iter|Receiver::<.*>::(recv|iter|try_iter|recv_timeout)\("
+SEND = r"Sender::<.*>::(send|try_send|send_timeout)\("
+UNWRAP_SEND = r"Result::<\(\), crossbeam::crossbeam_channel::(Try)?SendError<.*>>::(unwrap|expect)\("
 
 
-def early_exit_and_unwrap(rep):
-    """P4; returns (early: bool, sites: [(fn, bb)])"""
-    consumer, walkers = None, []
-    for fn in all_fn_names("parse::parallel_parse::{closure#"):
-        b = cfg_of(fn)
-        if any(re.search(RECV, t) for _, t, _ in b.values()):
-            consumer = (fn, b)
-        if any(re.search(r"Sender::<.*>::(send|try_send|send_timeout)\(", t) for _, t, _ in b.values()):
-            walkers.append((fn, b))
-    if consumer is None:
-        return None, []
-    fn, b = consumer
-    nexts = [n for n, (_, t, _) in b.items() if re.search(r"IntoIter<.*> as std::iter::Iterator>::next\(|Iter<.*> as std::iter::Iterator>::next\(|Receiver::<.*>::recv\(", t)]
-    rets = [n for n, (_, t, _) in b.items() if t == "return;"]
-    if not nexts or not rets:
-        raise Inconclusive("collector closure: receive call or return block not recognised")
-    removed = set()
-    for n in nexts:
-        nb = b[n][2][0]
-        m = re.match(r"switchInt\(.*\) -> \[0: bb(\d+),", b[nb][1])
-        if not m:
-            raise Inconclusive("collector closure: no discriminant test after the receive call in bb%d" % n)
-        removed.add((nb, int(m.group(1))))
-    early = False
-    for r in rets:
-        ok, _ = reachable(b, removed, r); rep.queries += 1
-        early = early or ok
-    rep.functions.add("%s (CFG: %d blocks)" % (fn, len(b)))
-    sites = []
-    for wfn, wb in walkers:
-        rep.functions.add("%s (CFG: %d blocks)" % (wfn, len(wb)))
-        for n, (_, t, _) in wb.items():
-            if re.search(r"Result::<\(\), crossbeam::crossbeam_channel::(Try)?SendError<.*>>::(unwrap|expect)\(", t):
-                ok, _ = reachable(wb, set(), n); rep.queries += 1
-                if ok:
-                    sites.append((wfn, n))
-    return early, sites
+def call_graph(funcs, span_of):
+    """direct calls between cli functions and closures handed to a call (a closure mentioned in a terminator may be invoked by the callee)"""
+    edges = set()
+    by_len = sorted(funcs, key=len, reverse=True)
+    for f, blocks in funcs.items():
+        for n, (_, t, _) in blocks.items():
+            for sp in re.findall(r"\{closure@([^}]*)\}", t):
+                if sp in span_of and span_of[sp] != f:
+                    edges.add((f, span_of[sp], n))
+            m = re.match(r"(?:_\d+|\(\*_\d+\)|\S+) = ([^\s(]+?)(?:::<.*>)?\(", t)
+            if m:
+                callee = m.group(1)
+                for g in by_len:
+                    if callee == g or callee.endswith("::" + g):
+                        if g != f:
+                            edges.add((f, g, n))
+                        break
+    return edges
+
+
+def closure_star(funcs, edges, seeds, rep):
+    """z3 Datalog: has*(f) :- has(f).  has*(f) :- calls(f, g), has*(g)."""
+    names = sorted(funcs)
+    idx = {f: k for k, f in enumerate(names)}
+    fp = z3.Fixedpoint()
+    fp.set(engine="datalog")
+    bv = z3.BitVecSort(16)
+    has = z3.Function("has", bv, z3.BoolSort())
+    calls = z3.Function("calls", bv, bv, z3.BoolSort())
+    fp.register_relation(has, calls)
+    a, b = z3.Consts("a b", bv)
+    fp.declare_var(a, b)
+    fp.rule(has(a), [calls(a, b), has(b)])
+    for f in seeds:
+        fp.fact(has(z3.BitVecVal(idx[f], 16)))
+    for f, g, _ in edges:
+        fp.fact(calls(z3.BitVecVal(idx[f], 16), z3.BitVecVal(idx[g], 16)))
+    out = set()
+    for f in names:
+        rep.queries += 1
+        if fp.query(has(z3.BitVecVal(idx[f], 16))) == z3.sat:
+            out.add(f)
+    return out
 
 
 def protocol(rep):
-    blocks = cfg_of("parse::parallel_parse")
-    body = fn_text(re.escape("parse::parallel_parse("))
+    funcs, span_of = cli_functions()
+    PP = "parse::parallel_parse"
+    if PP not in funcs:
+        raise Inconclusive("parse::parallel_parse not found in the cli MIR")
+    blocks = funcs[PP]
+    body = fn_text(re.escape(PP + "("))
     out = []
+    edges = call_graph(funcs, span_of)
+    direct_recv = {f for f, b in funcs.items() if any(re.search(RECV, t) for _, t, _ in b.values())}
+    direct_send = {f for f, b in funcs.items() if any(re.search(SEND, t) for _, t, _ in b.values())}
+    recv_star = closure_star(funcs, edges, direct_recv, rep)
     locals_ty = dict(re.findall(r"^    let (?:mut )?(_\d+): (.*);$", body, re.M))
     spawn = [(n, t) for n, (_, t, _) in blocks.items() if re.search(r"= std::thread::(spawn|Builder::spawn|Builder::spawn_unchecked)::<", t)]
     runs = [n for n, (_, t, _) in blocks.items() if re.search(r"= ignore::WalkParallel::run::<", t)]
     joins = [n for n, (_, t, _) in blocks.items() if re.search(r"= std::thread::JoinHandle::<.*>::join\(", t)]
     if len(runs) != 1:
         raise Inconclusive("parallel_parse: expected one call of WalkParallel::run, found %d" % len(runs))
-    rep.functions.add("parse::parallel_parse (CFG: %d blocks)" % len(blocks))
+    rep.functions.add("parse::parallel_parse (CFG: %d blocks; call graph of %d cli functions, %d edges)" % (len(blocks), len(funcs), len(edges)))
     run_ok, _ = reachable(blocks, set(), runs[0]); rep.queries += 1
     if not run_ok:
         raise Inconclusive("vacuity: WalkParallel::run is not reachable in the extracted CFG")
-    # which spawned closure consumes the receiver?
+    # which spawned closure consumes the receiver (itself or through the functions it calls)?
     consumer_spawns = []
     for n, t in spawn:
         m = re.search(r"spawn(?:_unchecked)?::<\{closure@([^}]*)\}", t)
-        if not m:
-            continue
-        ctext = fn_text(r"parse::parallel_parse::\{closure#\d+\}\(_1: (?:&mut |&)?\{closure@%s\}" % re.escape(m.group(1)))
-        if ctext and re.search(r"Receiver<.*> as std::iter::IntoIterator>::into_iter|Receiver::<.*>::(recv|iter|try_iter)\(", ctext):
+        if m and span_of.get(m.group(1)) in recv_star:
             consumer_spawns.append(n)
     # P1
     if not consumer_spawns:
@@ -107,10 +130,13 @@ def protocol(rep):
         r, _ = reachable(blocks, removed, runs[0]); rep.queries += 1
         if r:
             out.append({"kind": "collector-not-concurrent", "detail": "WalkParallel::run (bb%d) is reachable without first spawning the thread that consumes the receiver" % runs[0]})
-    # P3
+    # P3: the calling thread receives neither itself nor through a function it calls (the spawn call excepted)
     for n, (_, t, _) in blocks.items():
-        if re.search(r"Receiver<.*> as std::iter::IntoIterator>::into_iter|Receiver::<.*>::(recv|iter|try_iter|recv_timeout)\(", t):
-            out.append({"kind": "collector-not-concurrent", "detail": "parallel_parse receives from the channel itself (bb%d)" % n})
+        if n in consumer_spawns:
+            continue
+        via = [g for f, g, bn in edges if f == PP and bn == n and g in recv_star]
+        if re.search(RECV, t) or via:
+            out.append({"kind": "collector-not-concurrent", "detail": "parallel_parse receives from the channel on the calling thread (bb%d%s)" % (n, ", through %s" % via[0] if via else "")})
             break
     # P2
     if joins:
@@ -129,11 +155,43 @@ def protocol(rep):
             out.append({"kind": "sender-not-dropped-before-join", "detail": "JoinHandle::join (bb%d) is reachable without dropping the function's own sender first" % joins[0]})
     elif consumer_spawns:
         out.append({"kind": "collector-never-joined", "detail": "the collector thread is never joined"})
-    early, sites = early_exit_and_unwrap(rep)
+    # P4
+    early, why = False, []
+    for f in sorted(direct_recv):
+        b = funcs[f]
+        rep.functions.add("%s (CFG: %d blocks)" % (f, len(b)))
+        nexts = [n for n, (_, t, _) in b.items() if re.search(r"IntoIter<.*> as std::iter::Iterator>::next\(|Iter<.*> as std::iter::Iterator>::next\(|Receiver::<.*>::recv\(", t)]
+        rets = [n for n, (_, t, _) in b.items() if t == "return;"]
+        if not nexts:
+            # the receiver is handed to an iterator adaptor (try_fold, collect into Result, ..): whether it can stop early is not visible
+            # in this CFG - assume it can (P4 then asks for walkers that tolerate a closed channel, which is the robust condition)
+            early = True; why.append("%s consumes through an adaptor (assumed able to stop early)" % f)
+            continue
+        removed = set()
+        for n in nexts:
+            nb = b[n][2][0]
+            m = re.match(r"switchInt\(.*\) -> \[0: bb(\d+),", b[nb][1])
+            if not m:
+                early = True; why.append("%s: receive in bb%d without a discriminant test (assumed able to stop early)" % (f, n))
+                continue
+            removed.add((nb, int(m.group(1))))
+        for r_ in rets:
+            ok, _ = reachable(b, removed, r_); rep.queries += 1
+            if ok:
+                early = True; why.append("%s can return while the channel is open" % f)
+    sites = []
+    for f in sorted(direct_send):
+        b = funcs[f]
+        rep.functions.add("%s (CFG: %d blocks)" % (f, len(b)))
+        for n, (_, t, _) in b.items():
+            if re.search(UNWRAP_SEND, t):
+                ok, _ = reachable(b, set(), n); rep.queries += 1
+                if ok:
+                    sites.append((f, n))
     if early and sites:
-        out.append({"kind": "walker-panics-after-collector-stops", "detail": "the collector returns at the first error while the channel is open, and %s unwraps the result of send (bb%d)" % sites[0]})
-    rep.extra["protocol_p4"] = "collector can return before the channel closes: %s; reachable unwrap/expect of a send result: %s" % (early, sites)
-    rep.extra["protocol"] = "parallel_parse: %d blocks; consumer spawn in bb%s, run in bb%s, join in bb%s" % (len(blocks), consumer_spawns, runs, joins)
+        out.append({"kind": "walker-panics-after-collector-stops", "detail": "%s, and %s unwraps the result of send (bb%d)" % (why[0], sites[0][0], sites[0][1])})
+    rep.extra["protocol_p4"] = "collector can stop before the channel closes: %s %s; reachable unwrap/expect of a send result: %s" % (early, why, sites)
+    rep.extra["protocol"] = "parallel_parse: %d blocks; consumer spawn in bb%s, run in bb%s, join in bb%s; receivers %s, senders %s" % (len(blocks), consumer_spawns, runs, joins, sorted(direct_recv), sorted(direct_send))
     return out
 
 
